@@ -78,6 +78,79 @@ def extMap : List (String × Nat × Bool) := [
 
 def extLookup (fn : String) : Option (Nat × Bool) := (extMap.find? (·.1 == fn)).map (·.2)
 
+/-- argument kinds an extension evaluator converts to (`evalString`, `evalDecimal`, …) -/
+inductive Kind where | any | str | decimal | datetime | duration | ip
+deriving DecidableEq, Repr, Inhabited
+
+def checkKind : Kind → Value → Except Err Unit
+  | .any, _ => .ok ()
+  | .str, .str _ => .ok ()
+  | .decimal, .decimal _ => .ok ()
+  | .datetime, .datetime _ => .ok ()
+  | .duration, .duration _ => .ok ()
+  | .ip, .ip _ => .ok ()
+  | _, _ => .error .type
+
+def partialErrorName : String := "__cedar::partialError"
+
+/-- which conversion each `new…Eval` applies to each argument -/
+def extSig (fn : String) : List Kind :=
+  if fn == "decimal" || fn == "datetime" || fn == "duration" || fn == "ip" then [.str]
+  else if fn == "lessThan" || fn == "lessThanOrEqual" || fn == "greaterThan" || fn == "greaterThanOrEqual" then [.decimal, .decimal]
+  else if fn == "isIpv4" || fn == "isIpv6" || fn == "isLoopback" || fn == "isMulticast" then [.ip]
+  else if fn == "isInRange" then [.ip, .ip]
+  else if fn == "toDate" || fn == "toTime" then [.datetime]
+  else if fn == "toMilliseconds" || fn == "toSeconds" || fn == "toMinutes" || fn == "toHours" || fn == "toDays" then [.duration]
+  else if fn == "offset" then [.datetime, .duration]
+  else if fn == "durationSince" then [.datetime, .datetime]
+  else []
+
+/-- the body of each extension evaluator once its arguments are evaluated and converted -/
+def callExt (fn : String) (vals : List Value) : Res :=
+  match vals with
+  | [.str s] =>
+    if fn == "decimal" then (parseDecimal s).map .decimal
+    else if fn == "datetime" then (parseDatetime s).map .datetime
+    else if fn == "duration" then (parseDuration s).map .duration
+    else if fn == "ip" then (parseIP s).map .ip
+    else .error .unknownFn
+  | [.decimal x, .decimal y] =>
+    if fn == "lessThan" then .ok (.bool (x < y))
+    else if fn == "lessThanOrEqual" then .ok (.bool (x ≤ y))
+    else if fn == "greaterThan" then .ok (.bool (x > y))
+    else if fn == "greaterThanOrEqual" then .ok (.bool (x ≥ y))
+    else .error .unknownFn
+  | [.ip i] =>
+    if fn == "isIpv4" then .ok (.bool (!i.v6))
+    else if fn == "isIpv6" then .ok (.bool i.v6)
+    else if fn == "isLoopback" then .ok (.bool i.isLoopback)
+    else if fn == "isMulticast" then .ok (.bool i.isMulticast)
+    else .error .unknownFn
+  | [.ip x, .ip y] => if fn == "isInRange" then .ok (.bool (y.contains x)) else .error .unknownFn
+  | [.datetime t] =>
+    -- Go: `ms - ms % MillisPerDay` / `ms % MillisPerDay` with truncated `%` (C01 finding for t < 0)
+    if fn == "toDate" then .ok (.datetime (wrap (t - Int.tmod t 86400000)))
+    else if fn == "toTime" then .ok (.duration (Int.tmod t 86400000))
+    else .error .unknownFn
+  | [.duration d] =>
+    if fn == "toMilliseconds" then .ok (.long d)
+    else if fn == "toSeconds" then .ok (.long (Int.tdiv d 1000))
+    else if fn == "toMinutes" then .ok (.long (Int.tdiv d 60000))
+    else if fn == "toHours" then .ok (.long (Int.tdiv d 3600000))
+    else if fn == "toDays" then .ok (.long (Int.tdiv d 86400000))
+    else .error .unknownFn
+  | [.datetime t, .duration d] =>
+    if fn == "offset" then
+      let (x, ok) := checkedAdd t d
+      if ok then .ok (.datetime x) else .error .overflow
+    else .error .unknownFn
+  | [.datetime t, .datetime u] =>
+    if fn == "durationSince" then
+      let (x, ok) := checkedSub t u
+      if ok then .ok (.duration x) else .error .overflow
+    else .error .unknownFn
+  | _ => .error .unknownFn
+
 mutual
 /-- `Evaler.Eval` for the evaluator built by `ToEval` from an AST node -/
 def eval : Expr → Env → Res
@@ -200,58 +273,24 @@ def eval : Expr → Env → Res
   | .set es, env => do let vs ← evalList es env; .ok (mkSet vs)
   | .record kes, env => do let kvs ← evalKVs kes env; .ok (mkRecord kvs)
   | .call fn args, env =>
-    -- `newExtensionEval`: arity and dispatch are decided when the evaluator is built
-    if fn == "__cedar::partialError" && args.length == 1 then
-      (match args with
-       | [a] => (match eval a env with
-                 | .ok (.str _) => .error .partialErr
-                 | .ok _ => .error .type
-                 | .error e => .error e)
-       | _ => .error .panic)
+    -- `newExtensionEval`: arity and dispatch are decided when the evaluator is built; every
+    -- extension evaluator evaluates and converts its arguments left to right, then applies
+    if fn == partialErrorName && args.length == 1 then
+      (do let _ ← evalTyped args [.str] env; .error .partialErr)
     else
     match extLookup fn with
     | none => .error .unknownFn
     | some (arity, _) =>
       if arity != args.length then .error .arity else
-      match fn, args with
-      | "decimal", [a] => do let s ← (eval a env).bind toStr; let d ← parseDecimal s; .ok (.decimal d)
-      | "datetime", [a] => do let s ← (eval a env).bind toStr; let d ← parseDatetime s; .ok (.datetime d)
-      | "duration", [a] => do let s ← (eval a env).bind toStr; let d ← parseDuration s; .ok (.duration d)
-      | "ip", [a] => do let s ← (eval a env).bind toStr; let d ← parseIP s; .ok (.ip d)
-      | "lessThan", [a, b] => do
-          let x ← (eval a env).bind toDecimal; let y ← (eval b env).bind toDecimal; .ok (.bool (x < y))
-      | "lessThanOrEqual", [a, b] => do
-          let x ← (eval a env).bind toDecimal; let y ← (eval b env).bind toDecimal; .ok (.bool (x ≤ y))
-      | "greaterThan", [a, b] => do
-          let x ← (eval a env).bind toDecimal; let y ← (eval b env).bind toDecimal; .ok (.bool (x > y))
-      | "greaterThanOrEqual", [a, b] => do
-          let x ← (eval a env).bind toDecimal; let y ← (eval b env).bind toDecimal; .ok (.bool (x ≥ y))
-      | "isIpv4", [a] => do let i ← (eval a env).bind toIP; .ok (.bool (!i.v6))
-      | "isIpv6", [a] => do let i ← (eval a env).bind toIP; .ok (.bool i.v6)
-      | "isLoopback", [a] => do let i ← (eval a env).bind toIP; .ok (.bool i.isLoopback)
-      | "isMulticast", [a] => do let i ← (eval a env).bind toIP; .ok (.bool i.isMulticast)
-      | "isInRange", [a, b] => do
-          let x ← (eval a env).bind toIP; let y ← (eval b env).bind toIP; .ok (.bool (y.contains x))
-      | "toDate", [a] => do
-          let t ← (eval a env).bind toDatetime
-          .ok (.datetime (wrap (t - Int.tmod t 86400000)))
-      | "toTime", [a] => do
-          let t ← (eval a env).bind toDatetime
-          .ok (.duration (Int.tmod t 86400000))
-      | "toMilliseconds", [a] => do let d ← (eval a env).bind toDuration; .ok (.long d)
-      | "toSeconds", [a] => do let d ← (eval a env).bind toDuration; .ok (.long (Int.tdiv d 1000))
-      | "toMinutes", [a] => do let d ← (eval a env).bind toDuration; .ok (.long (Int.tdiv d 60000))
-      | "toHours", [a] => do let d ← (eval a env).bind toDuration; .ok (.long (Int.tdiv d 3600000))
-      | "toDays", [a] => do let d ← (eval a env).bind toDuration; .ok (.long (Int.tdiv d 86400000))
-      | "offset", [a, b] => do
-          let t ← (eval a env).bind toDatetime; let d ← (eval b env).bind toDuration
-          let (x, ok) := checkedAdd t d
-          if ok then .ok (.datetime x) else .error .overflow
-      | "durationSince", [a, b] => do
-          let t ← (eval a env).bind toDatetime; let u ← (eval b env).bind toDatetime
-          let (x, ok) := checkedSub t u
-          if ok then .ok (.duration x) else .error .overflow
-      | _, _ => .error .unknownFn
+      do let vs ← evalTyped args (extSig fn) env; callExt fn vs
+/-- evaluate argument `i`, convert it to the kind the extension function expects, then go on -/
+def evalTyped : List Expr → List Kind → Env → Except Err (List Value)
+  | [], _, _ => .ok []
+  | e :: es, ks, env => do
+    let v ← eval e env
+    let _ ← checkKind (ks.headD .any) v
+    let vs ← evalTyped es ks.tail env
+    .ok (v :: vs)
 /-- set literal elements: left to right, first error wins -/
 def evalList : List Expr → Env → Except Err (List Value)
   | [], _ => .ok []
